@@ -34,6 +34,88 @@ EXPLANATION += " Also decided (rules added after the second round of seeded chan
 
 
 
+def _is(pattern: str, e: ast.AST, fn: ast.AST = None) -> bool:
+    """`e` matches the pattern (shape.match syntax) as written or, inside `fn`, after resolving local temporaries"""
+    from .. import shape
+    if shape.match(pattern, e) is not None:
+        return True
+    return fn is not None and shape.match(pattern, shape.resolve(e, fn)) is not None
+
+
+def _under(ix, fi, pattern: str, *conditions) -> list:
+    """Live nodes of `fi` (private helpers inlined, temporaries resolved: lib.find) that match `pattern` and execute
+    only where every (atom pattern, truth) of `conditions` is known to hold - whatever the shape of the tests."""
+    from .. import shape
+    from ..lib import find
+    out = []
+    for node, b, fn in find(ix, fi, pattern):
+        if all(shape.holds_at(node, fn, lambda a_, pt=pt: _is(pt, a_, fn), truth) for pt, truth in conditions):
+            out.append(node)
+    return out
+
+
+def _refuted(node, fn, pattern: str) -> bool:
+    """The condition P = `pattern` is known to be false where `node` executes: directly (shape.holds_at), or by unit
+    resolution on a compound fact: `A and P` is known false while A is known true (the `else` of `elif not q(x) and P:`
+    below an earlier `if q(x): return`), or `A or not P` is known true while A is known false (the same test flipped)."""
+    from .. import shape
+    is_p = lambda a_: _is(pattern, a_, fn)
+    if shape.holds_at(node, fn, is_p, False):
+        return True
+    facts = shape.facts_at(node, fn)
+
+    def literal(e):
+        """(positive atom, sign): e is true exactly when the atom has truth value `sign`; None for a compound"""
+        lits = list(shape.atoms(e))
+        return (lits[0][0], lits[0][1] == "t") if len(lits) == 1 and not isinstance(lits[0][0], ast.BoolOp) else None
+
+    def known(e, value: bool):
+        lit = literal(e)
+        return lit is not None and any(norm(a_) == norm(lit[0]) and t_ == (lit[1] == value) for a_, t_ in facts)
+    for a_, t_ in facts:
+        if not isinstance(a_, ast.BoolOp):
+            continue
+        conj = isinstance(a_.op, ast.And)
+        if t_ is not (not conj):            # `... and ...` known false / `... or ...` known true
+            continue
+        # the member that is P (in a conjunction) / not P (in a disjunction)
+        mine = [v for v in a_.values if literal(v) is not None and is_p(literal(v)[0]) and literal(v)[1] == conj]
+        rest = [v for v in a_.values if v not in mine]
+        if mine and all(known(v, conj) for v in rest):
+            return True
+    return False
+
+
+def _reachable(node, fn) -> bool:
+    """the conditions known where `node` executes do not contradict each other (the same atom true and false)"""
+    from .. import shape
+    seen = {}
+    for a_, t_ in shape.facts_at(node, fn):
+        if seen.setdefault(norm(a_), t_) != t_:
+            return False
+    return True
+
+
+def wrapped_operation_param(f):
+    """For a wrapper function nested in the decorator `ireduce_dimensions(<op>)`: the name of the decorator's parameter,
+    i.e. the wrapped operation.  None for any other function."""
+    p = getattr(f, "parent", None)
+    if p is None or p.name != "ireduce_dimensions" or not isinstance(p.node, ast.FunctionDef) or not p.node.args.args:
+        return None
+    return p.node.args.args[0].arg
+
+
+def is_result_of_wrapped_operation(f, recv) -> bool:
+    """`recv` (an expression inside the ireduce_dimensions wrapper `f`) is the value returned by the wrapped operation:
+    the call `<op>(...)` itself or a local bound to it (whatever the local is called)."""
+    from .. import shape
+    op = wrapped_operation_param(f)
+    if op is None:
+        return False
+    v = shape.unalias(recv, f.node)
+    return isinstance(v, ast.Call) and isinstance(v.func, ast.Name) and v.func.id == op
+
+
 def inplace_primitives_rule(ck, ix):
     """Who may call the in-place conversion primitives.  `X._convert_magnitude(...)` rescales an ndarray magnitude in
     place and `X.ito*(...)` rebinds magnitude and units of X: both may only be applied to the target of an operation
@@ -75,7 +157,7 @@ def inplace_primitives_rule(ck, ix):
             if fam:
                 ck.check(recv == target, "G-OWN", f"in-place-primitive|{qn}|{norm(c)[:40]}", f.loc(c), f"in-place conversion of the target `{target}` of an in-place operation",
                          f"`{norm(c)}` converts `{recv}` in place inside {qn}: only the target `{target}` of an in-place operation may be modified")
-            elif f.name == "wrapped" and recv == "result":
+            elif is_result_of_wrapped_operation(f, c.func.value):
                 ck.ok("G-OWN", f"in-place-primitive|{qn}|{norm(c)[:40]}", f.loc(c), "the freshly computed result is reduced in place")
             else:
                 ck.fail("G-OWN", f"in-place-primitive|{qn}|{norm(c)[:40]}", f.loc(c),
@@ -211,27 +293,38 @@ def run(ck, ix, tier):
     odd = sorted(u for u in used if u not in dispatched and u not in ("match_input", "", "radian", "degree", "dimensionless"))
     ck.check(not odd, "G-TABLE", "op-strings|every-used-output-policy-known", m.relpath, "every output policy in the tables is an operation, match_input or a unit string of the spec",
              f"output policies {odd} are neither operations understood by get_op_output_unit nor known unit strings")
-    # semantic spot checks of get_op_output_unit
-    src = norm(gop.node)
+    # semantic spot checks of get_op_output_unit, by role: the expression that gives the unit for operation <op> is
+    # evaluated where `unit_op == '<op>'` is known to hold (if/elif chain, guard clauses, flipped tests alike)
+    from .. import shape as _shg
+    gfn = gop.node
     for op, frag in (("square", "first_input_units ** 2"), ("sqrt", "first_input_units ** 0.5"), ("reciprocal", "first_input_units ** (-1)"), ("cbrt", "first_input_units ** (1 / 3)"),
                      ("sum", "(1 * first_input_units + 1 * first_input_units).units"), ("delta", "(1 * first_input_units - 1 * first_input_units).units"),
                      ("variance", "((1 * first_input_units + 1 * first_input_units) ** 2).units")):
-        ok = frag in src or frag.replace("(-1)", "-1") in src
+        ok = bool(_under(ix, gop, frag, (f"unit_op == '{op}'", True)))
         ck.check(ok, "G-TABLE", f"get_op_output_unit|{op}", gop.loc(), f"{op}: {frag}", f"get_op_output_unit no longer computes `{op}` as {frag}")
     # mul multiplies, div divides all following units
+
+    def unit_accumulations(op):
+        """(#statements executed under unit_op == op, operators with which `<arg>.units` is accumulated there or in the
+        private module-level helpers called from there, transitively)"""
+        is_op = lambda a_: _is(f"unit_op == '{op}'", a_, gfn)
+        under = [x for x in walk_local(gfn) if isinstance(x, (ast.stmt, ast.Call)) and _shg.holds_at(x, gfn, is_op, True)]
+        out, seen = [], set()
+
+        def scan(nodes, depth):
+            for a in nodes:
+                if isinstance(a, ast.AugAssign) and isinstance(a.value, ast.Attribute) and a.value.attr == "units":
+                    out.append(type(a.op))
+                if isinstance(a, ast.Assign) and isinstance(a.value, ast.BinOp) and isinstance(a.value.right, ast.Attribute) and a.value.right.attr == "units" and norm(a.targets[0]) == norm(a.value.left):
+                    out.append(type(a.value.op))        # acc = acc OP x.units
+                if depth and isinstance(a, ast.Call) and isinstance(a.func, ast.Name) and a.func.id.startswith("_") and a.func.id in m.functions and a.func.id not in seen:
+                    seen.add(a.func.id)
+                    scan(list(walk_local(m.functions[a.func.id].node)), depth - 1)
+        scan(under, 3)
+        return len(under), out
     for op, aug in (("mul", ast.Mult), ("div", ast.Div), ("delta,div", ast.Div), ("invdiv", ast.Div)):
-        branch = [t for t in walk_local(gop.node) if isinstance(t, ast.If) and norm(t.test) == f"unit_op == '{op}'"]
-        def unit_accumulations(stmts, depth=1):
-            """AugAssign operators applied with `<arg>.units` in these statements or in a private module-level helper they call"""
-            out = []
-            for s_ in stmts:
-                for a in ast.walk(s_):
-                    if isinstance(a, ast.AugAssign) and norm(a.value).endswith(".units"):
-                        out.append(type(a.op))
-                    if depth and isinstance(a, ast.Call) and isinstance(a.func, ast.Name) and a.func.id.startswith("_") and a.func.id in m.functions:
-                        out += unit_accumulations(m.functions[a.func.id].node.body, depth - 1)
-            return out
-        ops_ = unit_accumulations(branch[0].body) if branch else []
+        n_under, ops_ = unit_accumulations(op)
+        ck.floor("G-TABLE", n_under, 1, f"statements of get_op_output_unit executed for unit_op == '{op}'")
         ok = bool(ops_) and all(o is aug for o in ops_)
         ck.check(ok, "G-TABLE", f"get_op_output_unit|{op}-accumulates", gop.loc(), f"{op} accumulates x.units with {'*' if aug is ast.Mult else '/'}", f"get_op_output_unit: `{op}` no longer accumulates the argument units with {'*=' if aug is ast.Mult else '/='}")
 
@@ -361,7 +454,8 @@ def run(ck, ix, tier):
     cm = ix.func(PQ, "PlainQuantity._convert_magnitude_not_inplace")
     ck.check(not any(isinstance(c, ast.Call) and (any(k.arg == "inplace" for k in c.keywords) or len(c.args) > 3) for c in walk_local(cm.node)), "G-OWN", "_convert_magnitude_not_inplace|never-inplace", cm.loc(), "never converts in place", "_convert_magnitude_not_inplace passes an inplace flag")
     cm = ix.func(PQ, "PlainQuantity._convert_magnitude")
-    ck.check("inplace=is_duck_array_type(type(self._magnitude))" in norm(cm.node), "G-OWN", "_convert_magnitude|inplace-only-for-duck-arrays", cm.loc(), "in place only for duck arrays", "_convert_magnitude no longer restricts in-place conversion to duck arrays")
+    from ..lib import has
+    ck.check(has(ix, cm, "_F(*_R, inplace=is_duck_array_type(type(self._magnitude)), **_K)"), "G-OWN", "_convert_magnitude|inplace-only-for-duck-arrays", cm.loc(), "in place only for duck arrays", "_convert_magnitude no longer restricts in-place conversion to duck arrays")
 
     # ------------------------------------------------------------ unit handling of selected methods / implementations
     for q, var in (("NumpyQuantity.clip", "min"), ("NumpyQuantity.clip", "max"), ("NumpyQuantity.put", "values"), ("NumpyQuantity.searchsorted", "v")):
@@ -389,18 +483,45 @@ def run(ck, ix, tier):
                     guard = True
         ck.check(conv, "G-TAG", f"{q}|{var}-converted-to-own-units", f.loc(), f"{var} is converted to the array's units", f"{q}: a Quantity `{var}` is no longer converted to the units of the array (`{var}.to(self).magnitude`) before use")
         ck.check(guard, "G-DOM", f"{q}|bare-{var}-needs-dimensionless", f.loc(), "a bare number is only accepted for dimensionless arrays", f"{q}: a bare `{var}` is accepted for dimensional arrays (no DimensionalityError for a non-Quantity bound of a dimensional array)")
+    from .. import shape as _shw
+    from ..lib import inlined
+    MAGS = ("magnitude", "_magnitude", "m")
+    ANCHORS = ("_is_quantity", "_is_sequence_with_quantity_elements", "_get_first_input_units")      # helpers the rules name: not looked through
     f = ix.func(NF, "_copyto")
-    ck.check("src = src.m_as(dst.units)" in norm(f.node), "G-TAG", "_copyto|source-converted-to-destination-units", f.loc(), "source converted to destination units", "_copyto no longer converts the source to the destination's units")
+    # the source (2nd parameter) is re-bound to its magnitude in the destination's units where both are quantities
+    dst_, src_ = [a_.arg for a_ in f.node.args.args][:2]
+    conv_ = [a_ for a_ in walk_local(f.node) if isinstance(a_, ast.Assign) and norm(a_.targets[0]) == src_ and any(_is(f"{src_}.m_as({dst_}.{u_})", a_.value, f.node) for u_ in ("units", "_units"))
+             and _shw.holds_at(a_, f.node, lambda t_: _is(f"_is_quantity({src_})", t_, f.node), True) and _shw.holds_at(a_, f.node, lambda t_: _is(f"_is_quantity({dst_})", t_, f.node), True)]
+    ck.check(bool(conv_), "G-TAG", "_copyto|source-converted-to-destination-units", f.loc(), "source converted to destination units", "_copyto no longer converts the source to the destination's units")
     f = ix.func(NF, "_where")
-    src = norm(f.node)
-    ck.check("args, output_wrap = unwrap_and_wrap_consistent_units(*args)" in src and "getattr(condition, 'magnitude', condition)" in src, "G-TAG", "_where|choices-consistent-condition-bare", f.loc(), "choices made consistent; condition stripped", "_where no longer makes the choices consistent / strips the condition")
+    # what is returned: WRAP(np.where(<bare condition>, *CHOICES)) with (CHOICES, WRAP) = unwrap_and_wrap_consistent_units(*args)
+    cond_, rest_ = f.node.args.args[0].arg, (f.node.args.vararg.arg if f.node.args.vararg else "args")
+    fw = inlined(ix, f, skip=ANCHORS).node
+    rets_ = [_shw.resolve(r.value, fw) for r in _shw.returns_of(fw)]
+    both_ = f"unwrap_and_wrap_consistent_units(*{rest_})"
+    ok = bool(rets_) and all(any(_shw.match(f"{both_}[1](np.where(getattr({cond_}, '{a_}', {cond_}), *{both_}[0]))", v) is not None for a_ in MAGS) for v in rets_)
+    ck.check(ok, "G-TAG", "_where|choices-consistent-condition-bare", f.loc(), "choices made consistent; condition stripped", "_where no longer makes the choices consistent / strips the condition")
     f = ix.func(NF, "unwrap_and_wrap_consistent_units")
-    src = norm(f.node)
-    ck.check("first_input_units = _get_first_input_units(args)" in src and "convert_to_consistent_units(*args, pre_calc_units=first_input_units)" in src and "Quantity(value, first_input_units)" in src, "G-TAG",
+    # some exit returns (ARGS converted to U, lambda v: Quantity(v, U)) with U = the units of the first quantity argument
+    rest_ = f.node.args.vararg.arg if f.node.args.vararg else "args"
+    U_ = f"_get_first_input_units({rest_})"
+    ok = False
+    for r in _shw.returns_of(f.node):
+        v = _shw.resolve(r.value, f.node)
+        if isinstance(v, ast.Tuple) and len(v.elts) == 2 and isinstance(v.elts[1], ast.Lambda) and len(v.elts[1].args.args) == 1:
+            par_ = v.elts[1].args.args[0].arg
+            ok = ok or (_shw.match(f"convert_to_consistent_units(*{rest_}, pre_calc_units={U_})[0]", v.elts[0]) is not None and _shw.match(f"_R.Quantity({par_}, {U_})", v.elts[1].body) is not None)
+    ck.check(ok, "G-TAG",
              "unwrap_and_wrap_consistent_units|first-unit-in-first-unit-out", f.loc(), "arguments converted to the first unit; output wrapped with it", "unwrap_and_wrap_consistent_units no longer converts to and wraps with the first input's units")
     f = ix.func(NF, "convert_arg")
-    src = norm(f.node)
-    ck.check("return arg.m_as(pre_calc_units)" in src and "raise DimensionalityError('dimensionless', pre_calc_units)" in src and "zero_or_nan(arg, True)" in src, "G-TAG", "convert_arg|quantities-converted-bare-numbers-rejected", f.loc(),
+    # a quantity is returned as its magnitude in the target units; for a dimensional target a bare number that is not
+    # zero/NaN ends in DimensionalityError
+    arg_, tgt_ = [a_.arg for a_ in f.node.args.args][:2]
+    fc = inlined(ix, f, skip=ANCHORS).node
+    conv_ = [r for r in _shw.returns_of(fc) if _is(f"{arg_}.m_as({tgt_})", r.value, fc) and _shw.holds_at(r, fc, lambda t_: _is(f"_is_quantity({arg_})", t_, fc), True)]
+    rej_ = [x for x in ast.walk(fc) if isinstance(x, ast.Raise) and x.exc is not None and _is(f"DimensionalityError('dimensionless', {tgt_})", x.exc, fc)
+            and _refuted(x, fc, f"zero_or_nan({arg_}, True)") and _refuted(x, fc, f"{tgt_}.dimensionless") and _reachable(x, fc)]
+    ck.check(bool(conv_) and bool(rej_), "G-TAG", "convert_arg|quantities-converted-bare-numbers-rejected", f.loc(),
              "quantities are converted; bare non-zero numbers are rejected for dimensional targets", "convert_arg no longer converts quantities / rejects bare numbers for dimensional targets")
     inplace_primitives_rule(ck, ix)
     stale_alias_rule(ck, ix)
